@@ -150,6 +150,49 @@ def c02(res):
                       "slice lengths 0..=35; a case = one nodes / point / slice observation")
 
 
+def c06(res):
+    wd = workdir("C06")
+    q = res.tier == "quick"
+    for cfg in (("Render2D_quick.cfg", "Render2D_quick2.cfg") if q else ("Render2D_quick.cfg", "Render2D_quick2.cfg", "Render2D_thorough.cfg", "Render2D_thorough2.cfg")):
+        res.models.append(model_check("MC_Render2D", cfg, wd, workers=8, timeout=3000))
+    bitmaps = os.path.join(wd, "bitmaps.out")
+    res.gens.append(generate("MC_Render2D", "Render2DGen.cfg", wd, bitmaps, workers=4, timeout=1500))
+    trace = os.path.join(wd, "trace.ndjson")
+    if not run_recorder(res, "raster", ["c06", bitmaps, res.tier, trace], wd, timeout=3000):
+        return res.finish("recorder crashed")
+    n, rej = validate("Trace_C06", trace, wd, timeout=3000)
+    res.validated = n - len(rej)
+    res.evaluations = n
+    res.samples = [{"truncated": open(trace).readline()[:1200]}]
+    res.add_rejects(trace, rej, lambda r, f: "backend=%s size=%sx%s tiles=%s perfect=%s threads=%s fails=%s" % (r.get("backend"), r.get("w"), r.get("h"), r.get("tiles"), r.get("perfect"), r.get("threads"), "+".join(sorted(f))))
+    res.assumptions = ["reference values come from the interpreter on the unsimplified shape (tied to direct graph evaluation by C01)",
+                       "pixels whose reference value is within 2e-5 of zero are not judged"]
+    return res.finish("every bitmap of the Render2D.tla bound realised as a union of pixel-aligned rectangles, random bitmaps, random CSG, "
+                      "shapes with NaN intervals and the bundled 2D models; sizes incl. non-square and non-multiples of the tile size; "
+                      "tile lists incl. non-powers of two; affine and projective views; VM and JIT; no pool and pools of 1..16; "
+                      "a case = one image, every pixel compared")
+
+
+def c07(res):
+    wd = workdir("C07")
+    q = res.tier == "quick"
+    for cfg in (("Render3D_quick.cfg", "Render3D_quick2.cfg") if q else ("Render3D_quick.cfg", "Render3D_quick2.cfg", "Render3D_thorough.cfg")):
+        res.models.append(model_check("MC_Render3D", cfg, wd, workers=8, timeout=6000))
+    trace = os.path.join(wd, "trace.ndjson")
+    if not run_recorder(res, "raster", ["c07", "-", res.tier, trace], wd, timeout=3000):
+        return res.finish("recorder crashed")
+    n, rej = validate("Trace_C07", trace, wd, timeout=3000)
+    res.validated = n - len(rej)
+    res.evaluations = n
+    res.samples = [{"truncated": open(trace).readline()[:1200]}]
+    res.add_rejects(trace, rej, lambda r, f: "backend=%s size=%sx%sx%s tiles=%s threads=%s fails=%s" % (r.get("backend"), r.get("w"), r.get("h"), r.get("d"), r.get("tiles"), r.get("threads"), "+".join(sorted(f))))
+    res.assumptions = ["reference heightmap: interpreter on the unsimplified shape over the whole grid and one root tile beyond its top",
+                       "reference normals: the same backend's gradient evaluator on the unsimplified shape (C05 judges gradients)"]
+    return res.finish("stacked objects (slabs, spheres, tilted planes, boxes), voxel-aligned boxes and random CSG on grids with "
+                      "width != height != depth and depths that are not multiples of the root tile; tile lists incl. single-level and "
+                      "non-powers of two; affine and projective views; VM and JIT; pools; a case = one heightmap, every column compared")
+
+
 def c10(res):
     wd = workdir("C10")
     q = res.tier == "quick"
@@ -292,7 +335,7 @@ def c11(res):
                       "Function and Shape APIs; a case = one call")
 
 
-CHECKS = {"C01": c01, "C03": c03, "C05": c05, "C11": c11, "C02": c02, "C04": c04, "C10": c10, "C14": c14, "C15": c15, "C20": c20}
+CHECKS = {"C01": c01, "C03": c03, "C05": c05, "C06": c06, "C07": c07, "C11": c11, "C02": c02, "C04": c04, "C10": c10, "C14": c14, "C15": c15, "C20": c20}
 
 
 def replay(prop, path):
